@@ -94,7 +94,7 @@ def collect_placement(opt, params):
     return placement
 
 
-def live_buffer_geometry(opt):
+def live_buffer_geometry(opt, params=None):
     """byte-level geometry of the live distributor's communication buffers (private attribute names; None if they moved)"""
     out = []
     try:
@@ -105,7 +105,14 @@ def live_buffer_geometry(opt):
             total = g.numel() * g.element_size()
             views = [(v.data_ptr() - base, v.numel() * v.element_size(), v.untyped_storage().data_ptr() == g.untyped_storage().data_ptr()) for v in d._global_dist_blocked_buffers]
             loc = d._local_dist_buffer
-            out.append({"total": total, "views": views, "local": (loc.data_ptr() - base, loc.numel() * loc.element_size()), "block_bytes": [b.numel() for b in d._global_blocked_params]})
+            # which (parameter, block ordinal) each global block is: blocks are views of their parameter, in parameter order
+            ids, seen = [], {}
+            plist = list(params) if params is not None else (list(d._param_group["params"]) if hasattr(d, "_param_group") else [])
+            for b in d._global_blocked_params:
+                j = next((i for i, p in enumerate(plist) if (p.to_local() if hasattr(p, "to_local") else p).untyped_storage().data_ptr() == b.untyped_storage().data_ptr()), None)
+                ids.append((j, seen.get(j, 0)))
+                seen[j] = seen.get(j, 0) + 1
+            out.append({"total": total, "views": views, "local": (loc.data_ptr() - base, loc.numel() * loc.element_size()), "block_bytes": [b.numel() for b in d._global_blocked_params], "block_ids": ids})
     except (AttributeError, KeyError):
         return None
     return out
